@@ -1370,7 +1370,49 @@ func (p *printer) expr(t *Term) string {
 		for _, v := range t.Bvars {
 			vs = append(vs, fmt.Sprintf("(%s %s)", smtSym(v.Name), v.S))
 		}
-		s = fmt.Sprintf("(%s (%s) %s)", t.Op, strings.Join(vs, " "), p.expr(t.Args[0]))
+		// subterms that mention a bound variable cannot become top-level definitions; the ones that occur more than once in the
+		// body are bound by let, otherwise a DAG-shaped body (reads through merged heaps) is printed as an exponential tree
+		cnt := map[int]int{}
+		var order []*Term
+		var walk func(x *Term)
+		walk = func(x *Term) {
+			if !x.HasBound || x.Op == "bound" {
+				return
+			}
+			cnt[x.id]++
+			if cnt[x.id] > 1 {
+				return
+			}
+			if x.Op != "forall" && x.Op != "exists" {
+				for _, a := range x.Args {
+					walk(a)
+				}
+			}
+			order = append(order, x)
+		}
+		walk(t.Args[0])
+		var local []int
+		var lets []string
+		for _, x := range order {
+			if cnt[x.id] > 1 {
+				if _, named := p.names[x.id]; named {
+					continue
+				}
+				str := p.expr(x)
+				if len(str) <= 24 {
+					continue
+				}
+				nm := fmt.Sprintf("b!%d", x.id)
+				lets = append(lets, fmt.Sprintf("(let ((%s %s)) ", nm, str))
+				p.names[x.id] = nm
+				local = append(local, x.id)
+			}
+		}
+		body := p.expr(t.Args[0])
+		for _, id := range local {
+			delete(p.names, id)
+		}
+		s = fmt.Sprintf("(%s (%s) %s%s%s)", t.Op, strings.Join(vs, " "), strings.Join(lets, ""), body, strings.Repeat(")", len(lets)))
 	case "havocfam":
 		sym := fmt.Sprintf("hf!%d", t.id)
 		a := p.expr(t.Args[0])
